@@ -693,7 +693,7 @@ impl Monitor for C03 {
          plus random multi-block layouts with several far branches (cascades). After check_branches(): assembled with real \
          encodings (range, labels, size_bytes) and co-executed against the unrepaired code (virtual wide-branch encoding) from \
          8 N/Z/C combinations x 4 register vectors; block-visit traces must be equal. monitor B: compiled programs with bodies \
-         padded to 100..300 bytes, range-checked and run against the reference. non-trivial = at least one repair was applied"
+         padded to 100..300 bytes, range-checked and run against the reference. Padding styles of the source kind: plain statements, many instruction forms incl. hardware registers, expansions of inline functions (with if / else, with an asm block of declared size 6), asm with large declared sizes, asm lines starting with a dot. non-trivial = at least one repair was applied"
             .into()
     }
     fn assumptions(&self) -> Vec<String> {
